@@ -88,7 +88,7 @@ theorem handle_never_blocks_when_closed (s : St) (h : Head) (fr : Framing) (last
     (handle s h fr last a body bs fin).2.2 = false := by
   exact handle_not_blocked s h fr last a body bs fin hf
 
-example : (Conn.run b!"GET /a HTTP/1.1\r\n\r\nGET /b HTTP/1.1\r\nHost: x" .eof (fun _ => ⟨0, 0, 1, .drop⟩)).statuses = [500]
-    ∧ (Conn.run b!"GET /a HTTP/1.1\r\n\r\nGET /b HTTP/1.1\r\nHost: x" .eof (fun _ => ⟨0, 0, 1, .drop⟩)).ending = .closed := by decide
+example : (Conn.run b!"GET /a HTTP/1.1\r\n\r\nGET /b HTTP/1.1\r\nHost: x" .eof (fun _ => ⟨0, 0, 1, .drop, false⟩)).statuses = [500]
+    ∧ (Conn.run b!"GET /a HTTP/1.1\r\n\r\nGET /b HTTP/1.1\r\nHost: x" .eof (fun _ => ⟨0, 0, 1, .drop, false⟩)).ending = .closed := by decide
 
 end TH.Props.C15
